@@ -62,6 +62,17 @@ def special(ctx):
                          Do(Call("ipv4::udp::unicast", SOCK("1.2.3.4:1"), SOCK("1.2.3.5:2"),
                                  _x=[Call("io::file", STR("@WD@/" + fn))], **({"raw": True} if i % 2 else {})))],
            files={fn: data}, kind="big-frame", nrec=1, lens=[n + 28 + (0 if i % 2 else 14)])
+    # a source the reader cannot decode half way through (a Latin-1 byte in a comment, a lone continuation byte, a
+    # truncated sequence at the end of a line): it does not compile; were it reported ok, the packets of the statements
+    # after that line would be missing from the file
+    pre = "import ipv4;\nlet t = ipv4::tcp::flow(1.2.3.4:1, 1.2.3.5:2);\nt.open();\n"
+    post = "t.client_message(\"GET / HTTP/1.0\");\nt.server_message(\"200 OK\");\nt.client_close();\n"
+    for i, bad in enumerate([b"# caf\xe9\n", b"// \x80\n", b"t.client_message(\"x\"); # \xc3\n", b"\xff\n", b"# \xe2\x82\n"]):
+        c = Case()
+        c.name, c.stmts, c.files, c.text, c.meta = "undec%d" % i, [], {}, None, None
+        c.src = pre.encode() + bad + post.encode()
+        c.gen = {"kind": "undecodable-line", "nrec": 10 + (1 if i == 2 else 0)}
+        out.append(c)
     return out
 
 
@@ -87,6 +98,12 @@ def run(ctx):
             # the property is about every program the compiler accepts: no output at all for packets the model emits
             ctx.fail("emit-crash", "the compiler crashed while emitting packets the model writes: " + str(c.impl.kind)[:200],
                      diff.replay_of(c))
+        if c.gen["kind"] == "undecodable-line" and c.impl.status == "ok":
+            ok_, recs_ = common.pcap_records(c.impl.pcap or b"")
+            ctx.fail("statements-lost", "a source with an undecodable line is reported ok with %d records; its statements "
+                     "emit %d packets when the line is repaired" % (len(recs_), c.gen["nrec"]),
+                     diff.replay_of(c, {"source_hex": c.src.hex()}))
+            continue
         if not diff.triage(ctx, c):
             continue
         if c.impl.pcap is None:
